@@ -31,20 +31,20 @@ CLAIMED = {
 }
 
 CLAIMED["C05"] = dict(
-   text="Two legs. A: seeded search over schedules, select ties, render-tick placement (fake clock) and stage latencies of the real batchers + extractor + RunAggregationLoop with the histogram render callback; monitors for mutual exclusion of Sample/render, termination (no deadlock, no panic, fake-time bound), final render after the last sample and equal to a sequential reference, and monotone intermediate renders. B: the same worlds free-running under the Go race detector. One run in four is a command-line run of `rare histo|bars` over lines that trickle in across several render ticks: every number on the final screen and the footer totals must equal the reference. Evidence over explored runs, not proof.",
-   ref="DESIGN.md section 5 C05, section 7 and 13.8",
+   text="Two legs. A: seeded search over schedules, select ties, render-tick placement (fake clock) and stage latencies of the real batchers + extractor + RunAggregationLoop with the histogram render callback; monitors for mutual exclusion of Sample/render, termination (no deadlock, no panic, fake-time bound), final render after the last sample and equal to a sequential reference, and monotone intermediate renders. B: the same worlds free-running under the Go race detector. One run in four is a command-line run of `rare histo|bars` over lines that trickle in across several render ticks: every number on the final screen and the footer totals must equal the reference (also with signed increments whose tail changes per-key counts but neither the total nor the number of groups). Evidence over explored runs, not proof.",
+   ref="DESIGN.md section 5 C05, section 7, 13.8 and 13.12",
    note=NOTE + " Leg B: the interleaving is the real scheduler's (not tape-controlled); a report is sound, a clean leg is only as strong as the race detector's happens-before analysis over the executed accesses; simrt takes no lock and draws from no shared tape in that mode so that it adds no happens-before edges.",
    tech=TECH + "; plus a free-running -race leg over the same seeded worlds for the data-race clause")
 
 CLAIMED["C15"] = dict(
-   text="Seeded search over histories of append / pause / remove-after-drain / re-create applied by a simulated writer while the real notify and polling follow readers run under the tape-driven scheduler with the fake clock; at every Read return the delivered bytes must be a prefix of the appended bytes (no loss, duplicate or reordering; no EOF or error while the file exists), and within 10 simulated seconds after the last operation everything appended must have been delivered (plain follow after a final remove: io.EOF). One run in four drives batchers.TailFilesToChan over 1-3 followed files instead (source names, gap-free line numbers, lines a prefix of the complete lines appended, the 250ms time flush, channel close when every file ended). Whether a re-created file gets the inode number of the removed one is decided by the tape (virtual file identity behind os.SameFile), and the writer can append right after a chosen system call of the reader (between two stats, between a read and the wait that follows). Evidence over explored runs, not proof.",
-   ref="DESIGN.md section 5 C15 and 13.7",
+   text="Seeded search over histories of append / pause / remove-after-drain / re-create applied by a simulated writer while the real notify and polling follow readers run under the tape-driven scheduler with the fake clock; at every Read return the delivered bytes must be a prefix of the appended bytes (no loss, duplicate or reordering; no EOF or error while the file exists), and within 10 simulated seconds after the last operation everything appended must have been delivered (plain follow after a final remove: io.EOF). One run in four drives batchers.TailFilesToChan over 1-3 followed files instead (source names, gap-free line numbers, lines a prefix of the complete lines appended, the 250ms time flush, channel close when every file ended), a third of those through the command line (`rare filter -l -f|-F [--poll] [--tail]` in-process: every printed `source line: text` against the appended streams, exit status and summary when plain follow ends, no return while a file is followed). Whether a re-created file gets the inode number of the removed one is decided by the tape (virtual file identity behind os.SameFile), and the writer can append right after a chosen system call of the reader (between two stats, between a read and the wait that follows). Evidence over explored runs, not proof.",
+   ref="DESIGN.md section 5 C15, 13.7 and 13.12",
    note=NOTE + " The fsnotify/inotify stub is trusted to be faithful for create/write/remove on one directory (FIFO, no loss, coalescing of an event identical to the newest unread one, non-remove events dropped when the file is gone at processing time, as fsnotify v1.4.9 does). Real kernel timing is not covered.",
    tech="deterministic simulation with fault injection: real follow readers on real scratch files inside one testing/synctest bubble, stubbed inotify event queue, writer client and reader scheduled by one seeded tape, fake clock for poll delays, prefix invariant at every step plus bounded liveness, tape shrinking and fresh-process replay")
 
 CLAIMED["C06"] = dict(
-   text="Seeded search over directory trees x argument forms x -z/-R/--readers x one injected open or read failure, with the whole CLI (`rare filter`) running in-process under the tape-driven scheduler; oracle: own reference expansion of the arguments, per-input expected (source, line, text) sets (stdlib gzip on a private copy decides what -z delivers), open counts from the fs seam, `[Log]` lines naming each failing input, and the exit-status table; termination monitor catches leaked reader slots. Gzip files may have several members; stdin may be a long stream from a producer that pauses (time flushes with partial batches, slow stages). Evidence over explored runs, not proof.",
-   ref="DESIGN.md section 5 C06 and 13.8",
+   text="Seeded search over directory trees x argument forms x -z/-R/--readers x one injected open or read failure, with the whole CLI (`rare filter`) running in-process under the tape-driven scheduler; oracle: own reference expansion of the arguments, per-input expected (source, line, text) sets (stdlib gzip on a private copy decides what -z delivers), open counts from the fs seam, `[Log]` lines naming each failing input, and the exit-status table; termination monitor catches leaked reader slots. Gzip files may have several members; trees may hold symbolic links (to a file, to a directory, dangling: -R may hand them out or leave them alone, the regular files next to them are read exactly once); stdin may be a long stream from a producer that pauses (time flushes with partial batches, slow stages). Evidence over explored runs, not proof.",
+   ref="DESIGN.md section 5 C06, 13.8 and 13.12",
    note=NOTE + " Oracles: stdlib compress/gzip for decompressed content, filepath.Match for one glob component, own tree walk. Content of a bit-flipped gzip stream is not checked (only that it is reported and the other inputs are complete).",
    tech=TECH)
 
@@ -55,14 +55,14 @@ CLAIMED["C03"] = dict(
    tech=TECH + "; metamorphic comparison across seeded variants of one scenario" + RACE_TECH)
 
 CLAIMED["C13"] = dict(
-   text="Order-independence for every key set, the meaning of a mode for key families where it is not in doubt. Seeded search over scenarios (a multiset of keys/counts from comparator-stressing pools x histo/table/bars x sort mode and modifier), each run in-process under 4-6 variants that change only map-iteration salt, arrival order, schedule/worker count, division among files and read latencies (number of intermediate renders on the fake clock, which feeds the sorter instance a command keeps for life); the row/column label sequences of the final snapshots must be identical, `:reverse` must mirror, equivalent spellings must agree. One scenario in three uses clean families (distinct integers/decimals, weekday/month names, dates of one layout, distinct totals) with independent sort modes for rows and columns; there the displayed order must equal the documented one (magnitude, calendar position, chronological, larger totals first, bytes). `rare reduce` (group order by key or by a --sort expression with ties, --sort-reverse) is included; a free-running -race leg runs key sets above a thousand (code that only goes parallel above a size threshold). Evidence over explored scenarios, not proof.",
-   ref="DESIGN.md section 5 C13 and 13.7",
+   text="Order-independence for every key set, the meaning of a mode for key families where it is not in doubt. Seeded search over scenarios (a multiset of keys/counts from comparator-stressing pools x histo/table/bars x sort mode and modifier), each run in-process under 4-6 variants that change only map-iteration salt, arrival order, schedule/worker count, division among files and read latencies (number of intermediate renders on the fake clock, which feeds the sorter instance a command keeps for life); the row/column label sequences of the final snapshots must be identical, `:reverse` must mirror, equivalent spellings must agree; for the key-based modes the screen of every periodic render (rebuilt through a hook in the terminal's WriteForLine) must order every pair of labels as the final output does. One scenario in three uses clean families (distinct integers/decimals, weekday/month names, dates of one layout, distinct totals) with independent sort modes for rows and columns; there the displayed order must equal the documented one (magnitude, calendar position, chronological, larger totals first, bytes). `rare reduce` (group order by key or by a --sort expression with ties, --sort-reverse) is included; a free-running -race leg runs key sets above a thousand (code that only goes parallel above a size threshold). Evidence over explored scenarios, not proof.",
+   ref="DESIGN.md section 5 C13, 13.7 and 13.12",
    note=NOTE + " The meaning of a mode is decided only for the clean families (for arbitrary mixtures only order-independence, mirroring and spelling equivalence are). One known finding (--sort date with keys of mixed layouts) is listed in known_findings.json.",
    tech=TECH + "; metamorphic comparison of label sequences across seeded variants of one data set, reference order for clean key families" + RACE_TECH)
 
 CLAIMED["C10"] = dict(
-   text="Seeded search over templates (tree generator over the registered helper table; funcs files through the real loader with comments/blank lines/continuations and definitions calling earlier ones; {time live|delta|now}) evaluated by 1-4 workers that share one compiled, optimised expression and its context pools under the tape-driven scheduler with the fake clock advancing between lines; every emitted key is compared with a sequential un-optimised evaluation (funcs files: of the inlined tree with builtins only); live/delta must lie between the read and the consumption instant of their line, now must be the compile instant. A free-running -race leg covers pooled objects handed to two workers at once. One run in five goes through the command line: a funcs file loaded with --funcs under drawn global output flags (--noformat, --color/--nocolor, --nounicode, --notrim) must behave like its inlined body in `rare filter`, and `rare expression` must print the same text with and without --no-optimize, with the funcs file and inlined. Evidence over explored runs, not proof.",
-   ref="DESIGN.md section 5 C10 and 13.7",
+   text="Seeded search over templates (tree generator over the registered helper table, every helper taking its turn as outermost call; funcs files through the real loader with comments/blank lines/continuations, lines that are no definition, definitions calling earlier ones and user functions nested in their own arguments; math stages; time parsing with detected and explicit layouts; {time live|delta|now}) evaluated by 1-4 workers that share one compiled, optimised expression and its context pools under the tape-driven scheduler with the fake clock advancing between lines; every emitted key is compared with a sequential un-optimised evaluation (funcs files: of the inlined tree with builtins only); live/delta must lie between the read and the consumption instant of their line, now must be the compile instant. A free-running -race leg covers pooled objects handed to two workers at once. One run in five goes through the command line: a funcs file loaded with --funcs under drawn global output flags (--noformat, --color/--nocolor, --nounicode, --notrim) must behave like its inlined body in `rare filter`, and `rare expression` must print the same text with and without --no-optimize, with the funcs file and inlined. Evidence over explored runs, not proof.",
+   ref="DESIGN.md section 5 C10, 13.7 and 13.12",
    note=NOTE + " Templates whose reference form does not compile or panics are redrawn (C08's subject); file-reading helpers (load/lookup/haskey), color and nested-loop templates that exceed the step budget are not exercised.",
    tech=TECH + "; plus a free-running -race leg for shared pools")
 
